@@ -84,12 +84,14 @@ def case_of(prog, regs, words, cfg, mode, maxsteps):
 
 def prog_shard(shard):
     seed, thorough, length, first, nstates, steps = shard
+    firsts = first if isinstance(first, tuple) else (first,)
+    first = firsts[0]
     H = alpha.hazard_alphabet(seed, False)
     states = alpha.init_states(seed, nstates)
     cfgs = icfgs(seed, thorough)
     p = Partial()
-    for tail in itertools.product(range(len(H)), repeat=length - 1):
-        idx = (first,) + tail
+    for tail in itertools.product(range(len(H)), repeat=length - len(firsts)):
+        idx = firsts + tail
         prog = [H[i] for i in idx]
         for si, st in enumerate(states):
             for ci, cfg in enumerate(cfgs):
@@ -106,7 +108,7 @@ def prog_shard(shard):
                         p.violation(dict(oracle="icache", field=f), case_of(prog, st["regs"], st["words"], cfg, mode, maxsteps),
                                     f"[{rv.prog_text(prog)}] init#{si} icache i{cfg[0]}b{cfg[1]}w{cfg[2]} {cfg[3]} pen={cfg[4]} {mode}: {d}",
                                     size=(length, idx, si, ci))
-    if first == 0:
+    if firsts in ((0,), (0, 0)):
         p.sample(case_of([H[(7 * i + 1) % 18] for i in range(length)], states[0]["regs"], states[0]["words"], cfgs[0], rv.FIVE, 8 * steps))
     return p
 
@@ -350,7 +352,8 @@ def run(ctx):
     nstates = 1 if ctx.quick else 2
     for L in range(1, (3 if ctx.quick else 4) + 1):
         t0 = time.time()
-        part = pmap(prog_shard, [(seed, thorough, L, f, nstates, steps) for f in range(18)])
+        shards = [(seed, thorough, L, f, nstates, steps) for f in range(18)] if L < 3 else [(seed, thorough, L, (f, g), nstates, steps) for f in range(18) for g in range(18)]
+        part = pmap(prog_shard, shards)
         ctx.space(f"icache-programs-len{L}", part, t0, length=L, cache_configs=len(icfgs(seed, thorough)), modes=2, init_states=nstates)
     t0 = time.time()
     part = pmap(sized_shard, [(seed, thorough, i, 32) for i in range(32)])
